@@ -19,6 +19,9 @@ VERIF = os.path.dirname(os.path.dirname(os.path.abspath(__file__)))
 REPO = os.environ.get("VMON_REPO", "/repo")
 PY = os.environ.get("VMON_PY", "/venv/bin/python")
 GUARD = "GINJAX_VERIF"
+# self-validation runs against scratch trees (VMON_REPO) write their evidence/replays elsewhere (VMON_OUT);
+# no registered command sets either variable
+OUT = os.environ.get("VMON_OUT", VERIF)
 
 
 def worker_env() -> dict:
@@ -83,7 +86,7 @@ def run_parent(prop: str, tier: str, seed: int) -> int:
         c.setdefault("i", i)
     n_workers = min(getattr(mod, "WORKERS", {"quick": 8, "thorough": 16})[tier], max(1, len(cases)))
     timeout = getattr(mod, "TIMEOUT", {"quick": 900, "thorough": 7200})[tier]
-    work = os.path.join(VERIF, ".work", f"{prop}_{tier}_{os.getpid()}")
+    work = os.path.join(OUT, ".work", f"{prop}_{tier}_{os.getpid()}")
     os.makedirs(work, exist_ok=True)
     procs = []
     env = worker_env()
@@ -198,7 +201,7 @@ def aggregate(prop, tier, seed, mod, cases, results, metas, incomplete, wall, wo
 
     replay_paths = []
     if unknown:
-        rdir = os.path.join(VERIF, "replays", prop)
+        rdir = os.path.join(OUT, "replays", prop)
         os.makedirs(rdir, exist_ok=True)
         seen = Counter()
         for v in unknown:
@@ -252,8 +255,8 @@ def aggregate(prop, tier, seed, mod, cases, results, metas, incomplete, wall, wo
         "violations": len(unknown),
         "verdict": "violated" if unknown else ("inconclusive" if reasons else "held-on-observed"),
     }
-    os.makedirs(os.path.join(VERIF, "evidence"), exist_ok=True)
-    with open(os.path.join(VERIF, "evidence", f"{prop}.json"), "w") as f:
+    os.makedirs(os.path.join(OUT, "evidence"), exist_ok=True)
+    with open(os.path.join(OUT, "evidence", f"{prop}.json"), "w") as f:
         json.dump(jsonable(evidence), f, indent=1)
 
     for mech, vs in known_hit.items():
